@@ -73,6 +73,8 @@ func runStoreOps(e *echo.Echo, ops []SOp) (reqs, resps []string, raw []httpResp)
 			p := path
 			if o.Merge {
 				p += "?merge=true"
+			} else if len(reqs)%2 == 1 {
+				p += "?merge=false" // an explicit false is a replace, like the absent parameter
 			}
 			r = httpDo(e, "PUT", p, o.Body.json())
 			reqs = append(reqs, fmt.Sprintf("QPut %d %s %s", o.ID, o.Body.coq(), cBool(o.Merge)))
